@@ -1,10 +1,12 @@
 #!/bin/bash
 # regression of the detection claims: every seeded change is applied in a scratch worktree (/tmp/rt, selected through
 # FV_REPO) and the quick tier of each check listed in its meta.json must report a VIOLATION; prints one line per seed.
+# usage: tools/run_all_seeds.sh [<glob of seed names, default *>]      (WT=<scratch worktree>, default /tmp/rt)
 cd /verif
-[ -d /tmp/rt ] || git -C /repo worktree add -q --detach /tmp/rt HEAD
-git -C /tmp/rt checkout -q --detach "$(git -C /repo rev-parse HEAD)" 2>/dev/null
-for d in seeded/*/; do
+export WT=${WT:-/tmp/rt}
+[ -d $WT ] || git -C /repo worktree add -q --detach $WT HEAD
+git -C $WT checkout -q --detach "$(git -C /repo rev-parse HEAD)" 2>/dev/null
+for d in seeded/${1:-*}/; do
   name=$(basename "$d")
   checks=$(/venv/bin/python -c "import json;print(' '.join(json.load(open('$d/meta.json'))['caught_by_quick_tier_of']))")
   res=""
